@@ -3120,7 +3120,8 @@ fn param_statement(r: &mut Rng) -> (String, Vec<char>) {
             (sql, vec!['x'; n])
         }
         _ => {
-            let s = ["SELECT '?', \"?\", ? -- ?", "SELECT ? /* ? */ + ?", "SELECT $1, $1, $2", "SELECT $2", "SELECT ?, $1, :a, @b", "PRAGMA join_memory_budget = ?", "CREATE TABLE pt (a INT DEFAULT ?)", "SELECT * FROM t1 LIMIT ?", "SELECT ? FROM t1 GROUP BY ? ORDER BY ?", "SELECT id FROM t3 ORDER BY emb <-> ? LIMIT 2", "INSERT INTO t4 (id, j) VALUES (?, ?)", "EXPLAIN SELECT * FROM t1 WHERE id = ?", "BEGIN", "SAVEPOINT ?", "SELECT ??", "SELECT ?::INT", "SELECT * FROM t1 WHERE id IN (?)", "SELECT * FROM t1 WHERE b LIKE ? ESCAPE ?"][r.below(20) as usize];
+            const FIXED: &[&str] = &["SELECT '?', \"?\", ? -- ?", "SELECT ? /* ? */ + ?", "SELECT $1, $1, $2", "SELECT $2", "SELECT ?, $1, :a, @b", "PRAGMA join_memory_budget = ?", "CREATE TABLE pt (a INT DEFAULT ?)", "SELECT * FROM t1 LIMIT ?", "SELECT ? FROM t1 GROUP BY ? ORDER BY ?", "SELECT id FROM t3 ORDER BY emb <-> ? LIMIT 2", "INSERT INTO t4 (id, j) VALUES (?, ?)", "EXPLAIN SELECT * FROM t1 WHERE id = ?", "BEGIN", "SAVEPOINT ?", "SELECT ??", "SELECT ?::INT", "SELECT * FROM t1 WHERE id IN (?)", "SELECT * FROM t1 WHERE b LIKE ? ESCAPE ?"];
+            let s = FIXED[r.below(FIXED.len() as u64) as usize];
             let n = s.matches('?').count() + s.matches('$').count();
             (s.to_string(), vec!['x'; n])
         }
